@@ -1,6 +1,6 @@
 (* C02 — Turns are scheduled by action value.
    Only statements, [exact] and [Print Assumptions] live here. *)
-From Coq Require Import List ZArith Reals Permutation.
+From Coq Require Import List ZArith Bool Reals Permutation.
 From SR Require Import Base.NumOps Model.Turn Proofs.TurnProofs.
 Import ListNotations.
 
